@@ -133,8 +133,15 @@ class Emitter:
                 # the same text as ONE #[doc = "..."] attribute with line feeds inside (what a /** */ block comment produces): doc.rs splits it
                 lines.append("    #[doc = %s]" % rust_str("\n".join((" " + dl) if dl else "" for dl in c["doc"].split("\n"))))
             elif c.get("doc"):
-                for dl in c["doc"].split("\n"):
+                # attributes that are none of the derive's business in front of / in the middle of the doc comment (darling forwards
+                # allow, doc and cfg in source order; the doc text is every doc attribute, wherever it stands)
+                noise = (len(c["doc"]) + len(c["variant"])) % 4
+                if noise == 0:
+                    lines.append("    #[allow(dead_code)]")
+                for i_, dl in enumerate(c["doc"].split("\n")):
                     lines.append("    ///%s" % ((" " + dl) if dl else ""))
+                    if noise == 1 and i_ == 0:
+                        lines.append("    #[cfg(all())]")
             attrs = []
             if c.get("name") is not None:
                 attrs.append("name = %s" % rust_str(c["name"]))
@@ -161,8 +168,13 @@ class Emitter:
                 fields = []
                 for a in c["args"]:
                     if a.get("doc"):
-                        for dl in a["doc"].split("\n"):
+                        noise = (len(a["doc"]) + len(a["field"])) % 4
+                        if noise == 0:
+                            lines.append("        #[allow(unused)]")
+                        for i_, dl in enumerate(a["doc"].split("\n")):
                             lines.append("        ///%s" % ((" " + dl) if dl else ""))
+                            if noise == 1 and i_ == 0:
+                                lines.append("        #[cfg(all())]")
                     at = []
                     if a["kind"] in ("opt", "flag"):
                         if a["short"] is True: at.append("short")
@@ -565,6 +577,17 @@ def corpus_sets():
             arg("data", doc="Payload")]},
         {"variant": "Mess", "name": None, "doc": "Measure", "sub": None, "args": [
             arg("größe", "pos", "u8", doc="Size"), arg("длина", "opt", "u8", long=True, short=True, doc="Length"), arg("straße", "pos", "str", optional=True)]}]}})
+    # 18: a declaration with its OWN command called `help` (shadowed by the built-in one while the help feature is on, an ordinary command
+    #     when it is off) and an option spelled like the help option
+    sets.append({"kind": "enum", "enum": {"title": None, "cmds": [
+        {"variant": "Help", "name": None, "doc": "Own help", "sub": None, "args": [arg("topic", "pos", "str", optional=True, doc="Topic")]},
+        unit("Hello", doc="Say hello"),
+        {"variant": "Run", "name": None, "doc": None, "sub": None, "args": [arg("hard", "flag", "bool", long=True, short=True), arg("what")]}]}})
+    # 19: signed positionals of every width (a negative value can only be given after `--`): both ends of every range
+    sets.append({"kind": "enum", "enum": {"title": None, "cmds": [
+        {"variant": "Move", "name": None, "doc": "Move", "sub": None, "args": [arg("step", "pos", "i8"), arg("fine", "pos", "i16", optional=True), arg("fast", "flag", "bool", long=True)]},
+        {"variant": "Seek", "name": None, "doc": None, "sub": None, "args": [arg("pos", "pos", "i32"), arg("big", "pos", "i64", optional=True), arg("huge", "pos", "i128", optional=True)]},
+        {"variant": "Sz", "name": None, "doc": None, "sub": None, "args": [arg("n", "pos", "isize"), arg("m", "pos", "u8", optional=True)]}]}})
     return sets
     return sets
 
@@ -795,6 +818,29 @@ def missing_arg_lines(rng, c, prefix=()):
         lines.append(" ".join(q(t) for t in toks))          # everything but the sub-command: <COMMAND> is missing
         for sc in c["sub"]["enum"]["cmds"][:3]:
             lines += missing_arg_lines(rng, sc, prefix=toks)
+    return lines
+
+def signed_boundary_lines(rng, c, prefix=()):
+    """for every signed (and, for the upper end, unsigned) integer positional of command c: lines that give it values at and just beyond
+    both ends of its range - and far beyond, where a parser that goes through a wider type and narrows shows - after `--` (a token with
+    a leading dash is a value only there); the other required arguments are supplied"""
+    pos = [a for a in c["args"] if a["kind"] == "pos"]
+    req_opts = [a for a in c["args"] if a["kind"] == "opt" and not a["optional"] and not a.get("default")]
+    lines = []
+    for i, a in enumerate(pos):
+        if a["ty"] not in INT_TYS and a["ty"] != "u8":
+            continue
+        lo, hi = int_range(a["ty"]) if a["ty"] != "u8" else (0, 255)
+        vals = [lo, lo - 1, lo + 1, hi, hi + 1, lo - 1000, -(1 << 31), -(1 << 31) - 1, -(1 << 63) - 1, (1 << 32) + 5, -(1 << 15) - 1, -129, -0]
+        for v in vals:
+            toks = list(prefix) + [cmd_name(c)]
+            for o in req_opts:
+                toks += [("--" + arg_long(o)) if arg_long(o) else ("-" + arg_short(o)), sample_value(rng, o["ty"], True)]
+            toks.append("--")
+            for b in pos[:i]:
+                toks.append(sample_value(rng, b["ty"], True))
+            toks.append(("-0" if v == 0 and str(v) == "0" and rng.randrange(2) else str(v)))
+            lines.append(" ".join(q(t) for t in toks))
     return lines
 
 def set_enums(s):
